@@ -5,7 +5,11 @@ of the package): for LinearSpinChain, CircularSpinChain, SCQubits, DispersiveCav
 * the setup string its `topology_map` passes to `to_chain_structure` (default of that function's
   signature if omitted; `raise NotImplementedError` = no topology map),
 * the shape of `ModelProcessor.transpile`: route-then-resolve as at the pinned commit, or with the
-  pre-decomposition of gates on more than two qubits (fixes/C13-1.patch).
+  pre-decomposition of gates on more than two qubits (fixes/C13-1.patch); each with or without the
+  leading size check `if qc.N > self.num_qubits: raise ValueError(...)` (fixes/C13-2.patch),
+* the setup string `topology_map` uses for a circuit on fewer qubits than the processor
+  (`if qc.N < self.num_qubits: return to_chain_structure(qc, <setup>)` in front of the usual return;
+  fixes/C13-2.patch for the ring device), the usual one if there is no such branch.
 
 Anything else raises TranslatorError: the hand model of `transpile` (Model/Transpile.lean) is only
 valid for a source that has one of the two recognised shapes."""
@@ -34,6 +38,10 @@ TRANSPILE_NEW = '''
 if self.native_gates is not None:
     qc = self._decompose_multi_qubit_gates(qc)
 ''' + TRANSPILE_OLD
+GUARD = '''
+if qc.N > self.num_qubits:
+    raise ValueError("")
+'''
 PRE_BODY = '''
 qc_t = deepcopy(qc)
 qc_t.gates = []
@@ -128,31 +136,46 @@ def _chain_default():
     raise TranslatorError("transpiler/chain.py: to_chain_structure not found")
 
 
+def _chain_call(st, dev):
+    """`return to_chain_structure(qc[, setup])` -> the setup string"""
+    if isinstance(st, ast.Return) and isinstance(st.value, ast.Call) and isinstance(st.value.func, ast.Name) \
+            and st.value.func.id == "to_chain_structure":
+        call = st.value
+        args = list(call.args)
+        kw = {k.arg: k.value for k in call.keywords}
+        if not args or not isinstance(args[0], ast.Name) or args[0].id != "qc" or len(args) > 2 \
+                or set(kw) - {"setup"} or (len(args) == 2 and kw):
+            raise TranslatorError(f"{dev}: unrecognised call {ast.unparse(call)}")
+        s = args[1] if len(args) == 2 else kw.get("setup")
+        if s is None:
+            return _chain_default()
+        if isinstance(s, ast.Constant) and isinstance(s.value, str):
+            return s.value
+    raise TranslatorError(f"{dev}: topology_map body not recognised: {ast.unparse(st)}")
+
+
+SMALL_TEST = ast.dump(ast.parse("qc.N < self.num_qubits").body[0].value)
+
+
 def _topo(mro, dev):
+    """-> (setup, setup for a circuit on fewer qubits than the processor); (None, None) = no topology map"""
     for cls in mro:
         f = _method(cls, "topology_map")
         if f is None:
             continue
         body = _strip_doc(f.body)
-        if [a.arg for a in f.args.args] != ["self", "qc"] or len(body) != 1:
-            raise TranslatorError(f"{dev}: topology_map is not a one-statement method of (self, qc)")
+        if [a.arg for a in f.args.args] != ["self", "qc"] or len(body) not in (1, 2):
+            raise TranslatorError(f"{dev}: topology_map is not a one- or two-statement method of (self, qc)")
+        if len(body) == 2:
+            br = body[0]
+            if not (isinstance(br, ast.If) and ast.dump(br.test) == SMALL_TEST and len(br.body) == 1 and not br.orelse):
+                raise TranslatorError(f"{dev}: topology_map body not recognised: {ast.unparse(br)}")
+            return _chain_call(body[1], dev), _chain_call(br.body[0], dev)
         st = body[0]
         if isinstance(st, ast.Raise) and isinstance(st.exc, ast.Name) and st.exc.id == "NotImplementedError":
-            return None
-        if isinstance(st, ast.Return) and isinstance(st.value, ast.Call) and isinstance(st.value.func, ast.Name) \
-                and st.value.func.id == "to_chain_structure":
-            call = st.value
-            args = list(call.args)
-            kw = {k.arg: k.value for k in call.keywords}
-            if not args or not isinstance(args[0], ast.Name) or args[0].id != "qc" or len(args) > 2 \
-                    or set(kw) - {"setup"} or (len(args) == 2 and kw):
-                raise TranslatorError(f"{dev}: unrecognised call {ast.unparse(call)}")
-            s = args[1] if len(args) == 2 else kw.get("setup")
-            if s is None:
-                return _chain_default()
-            if isinstance(s, ast.Constant):
-                return s.value
-        raise TranslatorError(f"{dev}: topology_map body not recognised: {ast.unparse(st)}")
+            return None, None
+        s = _chain_call(st, dev)
+        return s, s
     raise TranslatorError(f"{dev}: no topology_map in its classes")
 
 
@@ -163,29 +186,46 @@ def _transpile_shape(mro, dev):
             continue
         if cls.name != "ModelProcessor":
             raise TranslatorError(f"{dev}: transpile is overridden in {cls.name}")
-        body = _dump(_strip_doc(f.body))
+        stmts = _strip_doc(f.body)
+        guard = False
+        g = ast.parse(GUARD).body[0]
+        if stmts and isinstance(stmts[0], ast.If) and ast.dump(stmts[0].test) == ast.dump(g.test):
+            st = stmts[0]
+            if st.orelse or len(st.body) != 1 or not isinstance(st.body[0], ast.Raise) \
+                    or not isinstance(st.body[0].exc, ast.Call) or not isinstance(st.body[0].exc.func, ast.Name) \
+                    or st.body[0].exc.func.id != "ValueError":
+                raise TranslatorError("ModelProcessor.transpile: size check not recognised")
+            guard, stmts = True, stmts[1:]
+        body = _dump(stmts)
         if body == _dump(ast.parse(TRANSPILE_OLD).body):
-            return False
+            return False, guard
         if body == _dump(ast.parse(TRANSPILE_NEW).body):
             h = _method(cls, "_decompose_multi_qubit_gates")
             if h is None or _dump(_strip_doc(h.body)) != _dump(ast.parse(PRE_BODY).body) \
                     or [a.arg for a in h.args.args] != ["qc"] \
                     or [ast.unparse(d) for d in h.decorator_list] != ["staticmethod"]:
                 raise TranslatorError("ModelProcessor._decompose_multi_qubit_gates not recognised")
-            return True
-        raise TranslatorError("ModelProcessor.transpile has neither of the two modelled shapes")
+            return True, guard
+        raise TranslatorError("ModelProcessor.transpile has none of the modelled shapes")
     raise TranslatorError(f"{dev}: no transpile method")
 
 
 def extract():
-    """-> ({lean device name: (python class, native list | None, setup string | None)}, pre: bool)"""
+    """-> (device table, pre: bool) — the interface other translators use (C06)"""
+    devs, (pre, _guard) = extract_all()
+    return devs, pre
+
+
+def extract_all():
+    """-> ({lean device name: (python class, native list | None, setup | None, setup for smaller circuits | None)},
+    (pre: bool, guard: bool))"""
     table = _classes()
     out, pres = {}, set()
     for lname, cname in DEVICES:
         if cname not in table:
             raise TranslatorError(f"class {cname} not found in the device files")
         mro = _mro(table, cname)
-        out[lname] = (cname, _native(mro, cname), _topo(mro, cname))
+        out[lname] = (cname, _native(mro, cname)) + _topo(mro, cname)
         pres.add(_transpile_shape(mro, cname))
     if len(pres) != 1:
         raise TranslatorError("the devices do not share one transpile method")
@@ -207,21 +247,35 @@ def render(devs, pre):
          "/-! GENERATED by py/translate/devices.py from /repo/src/qutip_qip/device/{modelprocessor,spinchain,circuitqed,"
          "cavityqed}.py and transpiler/chain.py — do not edit. -/",
          "namespace QipVerif.Gen", "open QipVerif QipVerif.Transpile", ""]
-    for lname, (cname, native, setup) in devs.items():
+    pre, guard = pre
+    for lname, (cname, native, setup, small) in devs.items():
         nat = "none" if native is None else "some [" + ", ".join(_lname(n) for n in native) + "]"
         L.append(f"/-- `{cname}`: native_gates = {native!r}, topology_map setup = {setup!r} -/")
         L.append(f"def spec_{cname} : DeviceSpec := ⟨{nat}, {_lsetup(setup)}⟩")
+        L.append(f"/-- … and for a circuit with `qc.N < num_qubits`: setup = {small!r} -/")
+        L.append(f"def specSmall_{cname} : DeviceSpec := ⟨{nat}, {_lsetup(small)}⟩")
         L.append("")
     L.append("def deviceSpec : Device → DeviceSpec")
-    for lname, (cname, _, _) in devs.items():
+    for lname, (cname, *_r) in devs.items():
         L.append(f"  | .{lname} => spec_{cname}")
+    L.append("")
+    L.append("def deviceSpecSmall : Device → DeviceSpec")
+    for lname, (cname, *_r) in devs.items():
+        L.append(f"  | .{lname} => specSmall_{cname}")
     L.append("")
     L.append("/-- does `ModelProcessor.transpile` decompose the gates on more than two qubits before `topology_map`? -/")
     L.append(f"def preDecompose : Bool := {'true' if pre else 'false'}")
     L.append("")
-    L.append("/-- `processor.transpile(qc).gates` of the current source -/")
+    L.append("/-- does `ModelProcessor.transpile` refuse a circuit on more qubits than the processor has? -/")
+    L.append(f"def sizeGuard : Bool := {'true' if guard else 'false'}")
+    L.append("")
+    L.append("/-- `processor.transpile(qc).gates` of the current source, `qc.N = num_qubits = N` -/")
     L.append("def transpile (dev : Device) (N : Nat) (gs : List Gate) : Except Transpile.Err (List Gate) :=")
     L.append("  transpileV tables preDecompose (deviceSpec dev) N gs")
+    L.append("")
+    L.append("/-- … for a processor with `M` qubits and a circuit with `qc.N = N` -/")
+    L.append("def transpileOn (dev : Device) (M N : Nat) (gs : List Gate) : Except Transpile.ErrD (List Gate) :=")
+    L.append("  transpileD tables preDecompose sizeGuard (deviceSpec dev) (deviceSpecSmall dev) M N gs")
     L.append("")
     L.append("end QipVerif.Gen")
     return "\n".join(L) + "\n"
@@ -236,7 +290,8 @@ def write_if_changed(path, content):
 
 
 def regenerate():
-    devs, pre = extract()
+    """-> (device table, (pre, guard), file changed)"""
+    devs, flags = extract_all()
     path = os.path.join(paths.LEAN, "QipVerif", "Gen", "DeviceTables.lean")
-    changed = write_if_changed(path, render(devs, pre))
-    return devs, pre, changed
+    changed = write_if_changed(path, render(devs, flags))
+    return devs, flags, changed
